@@ -245,6 +245,19 @@ func (x *Exec) libraryModel(st *State, name string, args []Val, sig *types.Signa
 				st.assume(fmt.Sprintf("(>= %s %s)", na, oa))
 				fv := x.freshConst(st, "json", x.ctx.sortOf(l.Elem))
 				x.assumeWF(st, fv, l.Elem)
+				if mt, isMap := l.Elem.Underlying().(*types.Map); isMap {
+					// decoding into a nil map variable leaves it nil or makes a new map; decoding into
+					// a non-nil map stores into that map (any map of the type may then have changed)
+					if prev, ok := st.cells[l.Cell]; ok && prev.T != "" {
+						dn, ds, vn, vs := x.mapHeaps(mt)
+						od, ov := x.heap(st, dn, ds), x.heap(st, vn, vs)
+						nd, nv := x.havocHeap(st, dn, ds), x.havocHeap(st, vn, vs)
+						wasNil := eq(prev.T, "0")
+						st.assume(fmt.Sprintf("(=> %s (or (= %s 0) (>= %s %s)))", wasNil, fv, fv, oa))
+						st.assume(fmt.Sprintf("(=> %s (forall ((r Int)) (! (=> (< r %s) (= (select %s r) (select %s r))) :pattern ((select %s r)))))", wasNil, oa, nd, od, nd))
+						st.assume(fmt.Sprintf("(=> %s (forall ((r Int)) (! (=> (< r %s) (= (select %s r) (select %s r))) :pattern ((select %s r)))))", wasNil, oa, nv, ov, nv))
+					}
+				}
 				st.cells[l.Cell] = x.valFromTerm(fv, l.Elem)
 				return x.freshResults(st, sig), true
 			}
@@ -905,6 +918,7 @@ func (x *Exec) builtin(st *State, b *ssa.Builtin, args []Val, c *ssa.CallCommon,
 			r := x.freshConst(st, "maplen", "Int")
 			st.assume(eq(r, ite(eq(a.T, "0"), "0", app(x.cardFn(x.ctx.sortOf(u.Key())), sel(x.heap(st, dn, ds), a.T)))))
 			st.assume("(>= " + r + " 0)")
+			st.assume("(<= " + r + " 1152921504606846976)") // a map holds at most 2^60 entries (as for slice capacities)
 			return []Val{mkInt(r)}
 		case *types.Array:
 			return []Val{mkInt(fmt.Sprint(u.Len()))}
